@@ -22,11 +22,12 @@ for d in sorted(os.listdir(os.path.join(ROOT, "seeded"))):
         vline = [l for l in res.split("\n") if "VIOLATION" in l][0]
         concrete = "no-failing-input-found" not in vline
         verdict = "caught, concrete replay" if concrete else "caught, no-failing-input-found"
-        if first.startswith("OK") or "MISSED" in first:
+        has_ok = any(l.startswith("OK") for l in res.split("\n"))
+        if has_ok or "MISSED" in first:
             verdict = "missed by the property's own check; " + verdict + " by another check"
         if "first version" in res or "Missed by the first" in res or "missed by the first" in res or "Missed before" in res:
             verdict += " (after the check was strengthened)"
-    elif first.startswith("OK") or "MISSED" in res:
+    elif any(l.startswith("OK") for l in res.split("\n")) or "MISSED" in res:
         verdict = "MISSED"
     what = (meta.get("what_breaks") or "").replace("\n", " ")
     needs = (meta.get("needs_to_manifest") or "").replace("\n", " ")
